@@ -1262,7 +1262,10 @@ class MyPyAstVisitor:
 
                     # We have to check if it's the correct reexport with the ID
                     is_from_same_package = reexport_source.id == package_id
-                    is_from_another_package = reexported_key.rstrip(".*") in {qname, module_qname}
+                    # The key of a relative import starts at the package of the source, e.g. "from .sub._mod import X"
+                    reexported_name = reexported_key.rstrip(".*")
+                    reexported_qname = f"{reexport_source.id.replace('/', '.')}.{reexported_name}"
+                    is_from_another_package = bool({reexported_name, reexported_qname} & {qname, module_qname})
                     if not is_from_same_package and not is_from_another_package:
                         continue
 
